@@ -210,3 +210,56 @@ Definition Signers_strlen (l : list go_addr) : Z := Z.of_nat (List.length l).
 Definition go_modacc := option go_addr.
 Definition modacc_is_nil (m : go_modacc) : bool := match m with None => true | Some _ => false end.
 Definition modacc_addr (m : go_modacc) : go_addr := match m with Some a => a | None => go_zero_addr end.
+
+(* ---- `for i, x := range xs { .. }`: as go_range, the body also receives the index ---- *)
+Fixpoint go_range_from {A S R : Type} (body : Z -> A -> S -> outcome (loop_res S R)) (i : Z) (xs : list A) (s : S)
+  : outcome (loop_res S R) :=
+  match xs with
+  | [] => Ok (LCont s)
+  | x :: rest =>
+      do res <- body i x s;
+      match res with
+      | LCont s' => go_range_from body (i + 1) rest s'
+      | LRet v => Ok (LRet v)
+      end
+  end.
+Definition go_range_i {A S R : Type} (body : Z -> A -> S -> outcome (loop_res S R)) (xs : list A) (s : S) :=
+  go_range_from body 0 xs s.
+(* xs[i] = v: out of range panics *)
+Fixpoint list_set {A} (l : list A) (n : nat) (v : A) : list A :=
+  match l, n with
+  | [], _ => []
+  | _ :: r, O => v :: r
+  | x :: r, S n' => x :: list_set r n' v
+  end.
+Definition go_set_index {A} (l : list A) (i : Z) (v : A) : outcome (list A) :=
+  if (i <? 0) || (go_len_list l <=? i) then Panic GO_PANIC_INDEX else Ok (list_set l (Z.to_nat i) v).
+
+(* ---- the deferred-error idiom: `v.., err := f(..)` ... `return .., err` for an f that returns zero values with its
+   error: execution goes on with the zero values, the return statements deliver the error ---- *)
+Definition catch_err {A} (z : A) (o : outcome A) : outcome (A * option Z) :=
+  match o with Ok v => Ok (v, None) | Err c => Ok (z, Some c) | Panic c => Panic c end.
+Definition ret_err {A} (e : option Z) (o : outcome A) : outcome A :=
+  match e with Some c => match o with Panic p => Panic p | _ => Err c end | None => o end.
+
+(* i.Uint64(): panics outside [0, 2^64) *)
+Definition GO_PANIC_UINT64 : Z := 24.    (* "Uint64() out of bounds" *)
+Definition Int_Uint64 (i : go_int) : outcome Z :=
+  if (0 <=? i) && (i <? 18446744073709551616) then Ok i else Panic GO_PANIC_UINT64.
+
+(* ---- query.PageRequest / query.PageResponse.  A page request is represented by WHAT IT SELECTS from an ordered
+   listing of coins (the only paginated listing the translated code hands one to is the bank's total supply): any
+   function from the listing to a page, or an error.  Theorems about code taking a page request quantify over all such
+   functions, hence over all keys, offsets, limits, count-total and reverse flags. ---- *)
+Definition go_PageResponse : Type := (list go_denom * Z)%type.      (* NextKey (the denomination it names), Total *)
+Definition go_zero_PageResponse : go_PageResponse := ([], 0).
+Definition go_PageRequest : Type := list go_coin -> outcome (list go_coin * go_PageResponse).
+(* a nil request: the first 100 entries, Total counted *)
+Definition go_zero_PageRequest : go_PageRequest :=
+  fun cs => Ok (firstn 100 cs, (match nth_error cs 100 with Some c => [fst c] | None => [] end, Z.of_nat (List.length cs))).
+
+(* ---- address strings in the list-query filters: addresses are abstract, so of a bech32 string only its emptiness
+   (len(s) > 0) and the address it denotes are observable; strings.EqualFold of two bech32 strings compares the
+   addresses (bech32 is case-insensitive as a whole; stored addresses are in canonical lower case) ---- *)
+Definition AddrStr_len (a : go_addr) : Z := if a =? go_zero_addr then 0 else 1.
+Definition AddrStr_EqualFold (a b : go_addr) : bool := a =? b.
